@@ -403,7 +403,7 @@ def _distance_with_params(t):
 
 
 def _distance_with_params_ndim(t):
-    return distance(t[0], t[1], use_ndim=True, **t[2])
+    return distance(t[0], t[1], **dict(t[2], use_ndim=True))
 
 
 def _distance_c_with_params(t):
